@@ -157,6 +157,24 @@ def _replay_new_import(model, rec):
             bad.append(f"'b cx foo' rejected: {e}")
         if mm["c.X"] is not mm.namespaces["c"]["X"]:
             bad.append("c.tx yielded more than one set of classes")
+        # a relative import two directories below the root, with a same-named decoy higher up:
+        # 'import common' in pkg/sub/leaf.tx means pkg/sub/common.tx
+        os.makedirs(os.path.join(d, "pkg", "sub"))
+        nested = {
+            "top.tx": "import pkg.sub.leaf\nTop: leaves+=Leaf;",
+            os.path.join("pkg", "common.tx"): "Item: 'decoy' name=ID;",
+            os.path.join("pkg", "sub", "common.tx"): "Item: 'item' name=ID;",
+            os.path.join("pkg", "sub", "leaf.tx"): "import common\nLeaf: 'leaf' items+=Item;",
+        }
+        for fn, txt in nested.items():
+            open(os.path.join(d, fn), "w").write(txt)
+        try:
+            mm2 = metamodel_from_file(os.path.join(d, "top.tx"))
+            got = mm2["pkg.sub.leaf.Leaf"]._tx_attrs["items"].cls._tx_fqn
+            if got != "pkg.sub.common.Item":
+                bad.append(f"'import common' in pkg/sub/leaf.tx resolved Item to {got}, expected pkg.sub.common.Item")
+        except Exception as e:  # noqa: BLE001
+            bad.append(f"loading top.tx (imports pkg.sub.leaf, which imports its sibling common) failed: {e}")
     finally:
         shutil.rmtree(d, ignore_errors=True)
     return bool(bad), "; ".join(bad) or "imports resolve in import order"
